@@ -195,7 +195,8 @@ impl PokSignatureProof {
 
     /// Convert a byte sequence into a Signature Proof of Knowledge
     pub fn from_bytes<B: AsRef<[u8]>>(bytes: B) -> Option<Self> {
-        const SIZE: usize = 32 * 3 + 48 * 4;
+        // sigma_1, sigma_2, the commitment and at least the two responses for t and m'
+        const SIZE: usize = 32 * 2 + 48 * 4;
         let buffer = bytes.as_ref();
         if buffer.len() < SIZE {
             return None;
